@@ -36,6 +36,8 @@ class QueueVal:
             return Native('Queue.put_nowait', lambda it2, a, k: (self.items.append(a[0]), self.puts.append(a[0]))[0])
         if name == 'empty':
             return Native('Queue.empty', lambda it2, a, k: not self.items)
+        if name == 'qsize':
+            return Native('Queue.qsize', lambda it2, a, k: len(self.items))
         if name == 'get':
             def get(it2, a, k):
                 def body(it3):
@@ -277,8 +279,36 @@ def prove_registry(src_root, ex: Explorer):
     ex.run(untrack, 'untrack')
 
 
+def prove_public_api(src_root, ex: Explorer):
+    """UserManager.track_user / untrack_user (the public entry points): every call becomes ONE request on the tracking manager, with the
+    user object of the name and the given flag - whatever the flags of the user look like at that moment (an untrack that is still
+    waiting in the queue has not changed them yet)"""
+    def path(ctx: Ctx):
+        it = mk(src_root, ctx)
+        which = ['track_user', 'untrack_user'][ctx.choose(2, 'call')]
+        bits = [1, 2, 4][ctx.choose(3, 'flag')]
+        has = ctx.choose(2, 'flag-currently-set') == 1
+        fl = flag(it, bits)
+        calls = []
+        user = new(it, UMODEL, 'User', name='bob')
+        tm = Stub('tracking manager',
+                  track_user=Recorder('track_user', fn=lambda it2, a, k: calls.append(('track_user', a[0], k.get('flag', a[1] if len(a) > 1 else None)))),
+                  untrack_user=Recorder('untrack_user', fn=lambda it2, a, k: calls.append(('untrack_user', a[0], k.get('flag', a[1] if len(a) > 1 else None)))),
+                  get_tracking_flags=Recorder('get_tracking_flags', ret=fl if has else flag(it, 0)),
+                  get_tracking_state=Recorder('get_tracking_state', ret=enum(it, UMODEL, 'TrackingState', 'TRACKED' if has else 'UNTRACKED')),
+                  is_tracked=Recorder('is_tracked', ret=has))
+        um = new(it, UM, 'UserManager', _tracking_manager=tm)
+        it.hooks[f'{UM}:UserManager.get_user_object'] = lambda it2, f, a, k: user
+        run(it, it.getattr(um, which), 'bob', fl)
+        ctx.prove(f'C15.public.{which}.one-request[flag={bits},set={has}]', calls == [(which, user, fl)],
+                  f'{which}(bob, {bits}) with the flag currently {"set" if has else "not set"} became {[(c[0], getattr(c[2], "value", c[2])) for c in calls]}')
+    ex.run(path, 'public-api')
+
+
 def prove_request_tracking(src_root, ex: Explorer):
-    outs = ['exists', 'not-exists', 'silence', 'send-error', 'wait-error']
+    # 'cancelled': the worker is cancelled while it waits for the answer (CLOSED: C15.closed.drop cancels and awaits it) - the cancellation
+    # must leave _request_tracking, it is not an outcome to retry
+    outs = ['exists', 'not-exists', 'silence', 'send-error', 'wait-error', 'cancelled']
 
     def path(ctx: Ctx):
         it = mk(src_root, ctx)
@@ -299,10 +329,24 @@ def prove_request_tracking(src_root, ex: Explorer):
                 it2.throw('TimeoutError')
             if oc == 'wait-error':
                 it2.throw('RuntimeError', 'x')
+            if oc == 'cancelled':
+                it2.throw('CancelledError')
             return resp
         w['net'].attrs['send_server_messages'] = Recorder('send', fn=send, is_async=True)
         w['net'].attrs['wait_for_server_message'] = Recorder('wait', fn=wait_for, is_async=True)
-        r = run(it, it.getattr(w['mgr'], '_request_tracking'), tu)
+        try:
+            r = run(it, it.getattr(w['mgr'], '_request_tracking'), tu)
+            raised = None
+        except PyRaise as pr:
+            r, raised = None, pr.exc.cls.name
+        if oc == 'cancelled':
+            ctx.prove('C15.request_tracking.cancellation-passes', raised == 'CancelledError',
+                      f'the worker was cancelled while waiting for the AddUser answer: _request_tracking returned {r!r} / raised {raised} - the worker goes on '
+                      'after its cancellation (the entry survives the close, AddUser is sent while disconnected)')
+            return
+        if raised:
+            ctx.fail(f'C15.request_tracking.table[{oc}]', f'raises {raised}')
+            return
         want = {'exists': (None, resp), 'not-exists': (600, resp), 'silence': (10, None), 'send-error': (10, None), 'wait-error': (10, None)}[oc]
         ctx.prove(f'C15.request_tracking.table[{oc}]', unbox(r[0]) == want[0] and r[2] is want[1] and len(w['sent']) == 1, f'{r!r}')
         if oc != 'send-error':
@@ -313,12 +357,18 @@ def prove_request_tracking(src_root, ex: Explorer):
         it = mk(src_root, ctx)
         w = mk_world(it, ctx)
         tu = mk_tracked(it, ctx, w, flags=1)
+        # other requests may be waiting in the queue when the delay is over (the worker may handle them BEFORE the retry is due to be
+        # noticed - C15.worker.step does not re-request on its own while a retry is pending): the marker is queued regardless
+        waiting = ctx.choose(2, 'requests-waiting')
+        for j in range(waiting):
+            tu.attrs['queue'].items.append(Opaque(f'earlier request {j}'))
         slept = []
         it.aio.sleep_hook = lambda it2, x: slept.append((x, len(tu.attrs['queue'].puts)))
         run(it, it.getattr(w['mgr'], '_request_retry'), tu, 600)
         puts = tu.attrs['queue'].puts
-        ctx.prove('C15.retry.marker', slept == [(600, 0)] and len(puts) == 1 and puts[0].attrs['flag'].value == 0 and puts[0].attrs['operation'].func.node.name == 'add_flag',
-                  'after the delay the retry marker (add_flag with no flag) is queued')
+        ctx.prove(f'C15.retry.marker[waiting={waiting}]', slept == [(600, 0)] and len(puts) == 1 and isinstance(puts[0], Obj) and puts[0].attrs['flag'].value == 0
+                  and puts[0].attrs['operation'].func.node.name == 'add_flag' and tu.attrs['queue'].items[-1] is puts[0],
+                  'after the delay the retry marker (add_flag with no flag) is queued, also behind requests that are still waiting')
     ex.run(retry, 'retry')
 
 
@@ -398,7 +448,7 @@ def prove_transfer_reason(src_root, ex: Explorer, res):
 
 
 def items(src_root, tier):
-    return [('step', None), ('exit-atomic', None), ('registry', None), ('request', None), ('closed', None), ('scan', None), ('transfer', None)]
+    return [('public', None), ('step', None), ('exit-atomic', None), ('registry', None), ('request', None), ('closed', None), ('scan', None), ('transfer', None)]
 
 
 def run_item(src_root, item, tier):
@@ -416,6 +466,8 @@ def run_item(src_root, item, tier):
             prove_request_tracking(src_root, ex)
         elif kind == 'closed':
             prove_closed(src_root, ex)
+        elif kind == 'public':
+            prove_public_api(src_root, ex)
         elif kind == 'scan':
             scan_flag_writers(src_root, ex)
         elif kind == 'transfer':
